@@ -533,13 +533,15 @@ func parseValues(resp string, vars []*Term, m *Model) bool {
 
 // SolverSet tries a chain of solvers until one decides.
 type SolverSet struct {
-	names    []string
-	procs    []*SolverProc
-	perMs    int
-	hardMs   int
-	specs    map[string]solverSpec
-	CrossN   int // cross-checked queries
-	CrossBad int
+	names        []string
+	procs        []*SolverProc
+	perMs        int
+	hardMs       int
+	specs        map[string]solverSpec
+	CrossN       int // cross-checked queries
+	CrossBad     int
+	Retries      int
+	RetryDecided int
 }
 
 func NewSolverSet(names []string, perQueryMs int) *SolverSet {
@@ -559,6 +561,23 @@ func (ss *SolverSet) proc(i int) *SolverProc {
 }
 
 func (ss *SolverSet) Check(pc []*Term, extra *Term, vars []*Term, wantModel bool) (SatResult, *Model, string) {
+	r, m, by := ss.checkOnce(pc, extra, vars, wantModel)
+	if r != Unknown {
+		return r, m, by
+	}
+	// every back end gave up within its per-query limit (possibly because the machine is busy): one more
+	// attempt with fresh processes and four times the limit before the obligation counts as undecided
+	ss.Retries++
+	retry := NewSolverSet(ss.names, ss.perMs*4)
+	defer retry.Close()
+	r, m, by = retry.checkOnce(pc, extra, vars, wantModel)
+	if r != Unknown {
+		ss.RetryDecided++
+	}
+	return r, m, by
+}
+
+func (ss *SolverSet) checkOnce(pc []*Term, extra *Term, vars []*Term, wantModel bool) (SatResult, *Model, string) {
 	for i := range ss.names {
 		p := ss.proc(i)
 		if p == nil {
